@@ -984,7 +984,7 @@ class Gen:
         if e['out'] == 'ok' and e['res'] and self.rng.random() < 0.7:
             self.probe_closed(e['res'][0], 'probe_pad_closed')
 
-    ANSI_PARTS = ['bold', 'red', 'bold;red', 'underline;red', '1', '31;1', 'rgb(1,2,3)', 'bg_green', 'nonsense', '', '[38;5;7']
+    ANSI_PARTS = ['bold', 'red', 'bold;red', 'underline;red', '1', '31', '4', '107', '01', '31;1', 'rgb(1,2,3)', 'bg_green', 'nonsense', '', '[38;5;7']
 
     def g_fmt(self):
         r = self.pick()
@@ -993,7 +993,7 @@ class Gen:
         n = self.length(r)
         x = self.rng.random()
         if x < 0.8:
-            fill = self.rng.choice(['', '', ':', '+', '-', '0', '7', 'x', ' ', '<', '*', '\t', '\u00a0', '\u200b'])
+            fill = self.rng.choice(['', '', ':', '+', '-', '0', '7', 'x', ' ', '<', '*', '\t', '\u00a0', '\u200b', '\n', '\r'])
             sign = self.rng.choice(['', '', '+', '-'])
             align = self.rng.choice(['<', '>', '^', '^', '']) if (fill or sign) is not None else ''
             width = self.rng.choice(['', str(n), str(n + 1), str(n + 2), str(n + 3), str(n + 6), '0', '03'])
@@ -1002,6 +1002,8 @@ class Gen:
             spec = fill + sign + align + width
             if self.rng.random() < 0.5:
                 spec += ':' + self.rng.choice(self.ANSI_PARTS)
+            if self.rng.random() < 0.06:
+                spec += self.rng.choice(['\n', '\n', ' ', 'x'])          # something behind a complete spec
         else:
             spec = ''.join(self.rng.choice('x:+-<^>50 ') for _ in range(self.rng.randint(1, 5)))
             while sum(c.isdigit() for c in spec) > 2:       # keep widths small (a 5-digit width is a 50 000 character text)
